@@ -63,9 +63,156 @@ COMMANDS = [
     ('eor', 'peer * announce eor ipv4 unicast', 'announce eor ipv4 unicast', 'error', None),
     ('flush', 'rib flush out', 'flush adj-rib out', 'done', None),
     ('ping', 'session ping', None, 'done', None),
+    # --- stateful / multi-route commands (model() below gives their meaning) ---
+    ('clear', 'rib clear out', 'clear adj-rib out', 'done', ('clear',)),
+    ('attrs2', 'peer * announce attributes next-hop 2.2.2.2 nlri 10.6.0.0/24 10.6.1.0/24', 'announce attributes next-hop 2.2.2.2 nlri 10.6.0.0/24 10.6.1.0/24', 'done', ('add', ('10.6.0.0/24', '10.6.1.0/24'), ALL)),
+    # the second prefix cannot be parsed: the command as a whole is refused and its first prefix must not be announced
+    ('attrsbad', 'peer * announce attributes next-hop 2.2.2.2 nlri 10.6.0.0/24 10.6.1.0/33', 'announce attributes next-hop 2.2.2.2 nlri 10.6.0.0/24 10.6.1.0/33', 'error', None),
+    ('split', 'peer * announce route 10.8.0.0/24 next-hop 2.2.2.2 split /25', 'announce route 10.8.0.0/24 next-hop 2.2.2.2 split /25', 'done', ('add', ('10.8.0.0/25', '10.8.0.128/25'), ALL)),
+    ('inline', 'peer * group announce route 10.9.0.0/24 next-hop 2.2.2.2 ; announce route 10.9.1.0/24 next-hop 2.2.2.2', None, 'done', ('add', ('10.9.0.0/24', '10.9.1.0/24'), ALL)),
+    ('inline1', 'peer 127.0.0.3 group announce route 10.9.0.0/24 next-hop 2.2.2.2 ; withdraw route 10.1.0.0/24', None, 'done', ('multi', (('add', '10.9.0.0/24', ('n2',)), ('del', '10.1.0.0/24', ('n2',))))),
+    ('show', 'rib show out', 'show adj-rib out', 'done', None),
+    ('version', 'system version', 'version', 'done', None),
+    ('comment', '# peer * announce route 10.3.0.0/24 next-hop 2.2.2.2', '# announce route 10.3.0.0/24 next-hop 2.2.2.2', 'done', None),
+    ('empty', '', '', 'done', None),
+    ('gstart', 'group start', None, 'done', ('gstart',)),
+    ('gend', 'group end', None, 'done', ('gend',)),
+    # a line in the form that a group block buffers (no target in front); outside a block API v6 does not know it
+    ('bare', 'announce route 10.5.0.0/24 next-hop 2.2.2.2', None, 'error', ('bare-add', '10.5.0.0/24')),
+    ('barewd', 'withdraw route 10.1.0.0/24', None, 'error', ('bare-del', '10.1.0.0/24')),
+    ('barebad', 'announce route 10.5.0.0/33 next-hop 2.2.2.2', None, 'error', ('bare-bad',)),
+    ('ackoff', 'session ack disable', None, 'done', ('ackoff',)),
+    ('ackon', 'session ack enable', None, 'done', ('ackon',)),
+    ('silence', 'session ack silence', None, 'done', ('silence',)),
 ]
+# the commands every sequence length is crossed over / the ones only crossed up to length 2 (with everything)
+CORE = ('annA', 'wdrA', 'annB1', 'ann6', 'badval', 'badsyntax', 'nonexthop', 'unknown', 'nopeer', 'eor', 'flush', 'ping')
+STATEFUL = ('clear', 'attrs2', 'attrsbad', 'split', 'inline', 'inline1', 'show', 'version', 'comment', 'empty', 'gstart', 'gend', 'bare', 'barewd', 'barebad', 'ackoff', 'ackon', 'silence')
+BLOCK3 = ('gstart', 'gend', 'bare', 'barewd', 'barebad', 'annA', 'wdrA', 'unknown', 'ackoff', 'ackon', 'silence')
+BLOCK4 = ('gstart', 'gend', 'bare', 'barewd', 'barebad', 'annA')
+MANY = '\n'.join(f'peer * announce route 10.{100 + i // 250}.{i % 250}.0/24 next-hop 2.2.2.2' for i in range(120))
+MANY_PREFIXES = tuple(f'10.{100 + i // 250}.{i % 250}.0/24' for i in range(120))
+COMMANDS.append(('many', MANY, None, 'done', ('add', MANY_PREFIXES, ALL)))
 CMD = {c[0]: c for c in COMMANDS}
 TERMINALS = ('done', 'error')
+
+
+def model(seq, version):
+    """Sequential reference semantics of a command sequence written by one API process.
+    Returns (expected terminal replies: list of 'done' / 'error' / None (either), number of commands answered while
+    acknowledgements were off, final Adj-RIB-Out per neighbor, True when only refused commands were given)."""
+    ribs = {n: set() for n in NEIGHBORS}
+    expected = []
+    who = []
+    unacked = 0
+    ack = True
+    grouping = False
+    buf = []
+    changed = False
+
+    def apply(eff):
+        nonlocal changed
+        op = eff[0]
+        if op == 'multi':
+            for e in eff[1]:
+                apply(e)
+            return
+        if op == 'clear':
+            for n in ribs:
+                ribs[n].clear()
+            changed = True
+            return
+        pfxs = eff[1] if isinstance(eff[1], tuple) else (eff[1],)
+        for n in eff[2]:
+            for pfx in pfxs:
+                changed = True
+                if op == 'add':
+                    ribs[n].add(pfx)
+                else:
+                    ribs[n].discard(pfx)
+
+    for c in seq:
+        line = CMD[c][1] if version == 6 else CMD[c][2]
+        eff = CMD[c][4]
+        if c == 'many':  # 120 announce lines, each a command of its own
+            if not grouping:
+                apply(eff)
+            if ack:
+                expected += ['done'] * 120
+                who += [c] * 120
+            else:
+                unacked += 120
+            continue
+        reply = CMD[c][3]
+        kind = eff[0] if eff else None
+        low = line.strip().lower()
+        if grouping and low.startswith(('announce', 'withdraw')):
+            # buffered until "group end"; it is acknowledged when buffered and takes effect (on every peer of the
+            # process) when the block ends - a member that cannot be parsed has no effect
+            if kind == 'bare-add':
+                buf.append(('add', eff[1], ALL))
+            elif kind == 'bare-del':
+                buf.append(('del', eff[1], ALL))
+            elif kind in ('add', 'del'):
+                buf.append((kind, eff[1], ALL))
+            reply = None if (eff is None or kind == 'bare-bad') else 'done'
+        elif kind == 'gstart':
+            if grouping:
+                reply = 'error'
+            grouping = True if not grouping else grouping
+            if reply == 'done':
+                buf = []
+        elif kind == 'gend':
+            if not grouping:
+                reply = 'error'
+            else:
+                for e in buf:
+                    apply(e)
+                buf = []
+                grouping = False
+        elif kind in ('bare-add', 'bare-del', 'bare-bad'):
+            reply = 'error'
+        elif kind == 'ackoff':
+            expected.append('done')  # this one is answered whatever the mode
+            who.append(c)
+            ack = False
+            continue
+        elif kind == 'ackon':
+            ack = True
+        elif kind == 'silence':
+            ack = False
+            unacked += 1
+            continue
+        elif eff:
+            apply(eff)
+        if ack:
+            expected.append(reply)
+            who.append(c)
+        else:
+            unacked += 1
+    return expected, who, unacked, ribs, not changed
+
+
+def match_replies(expected, unacked, got):
+    """None when the observed terminal replies are what the model allows, else (kind, index)."""
+    if unacked == 0 and len(got) != len(expected):
+        return ('count', None)
+    if unacked == 0 or len(got) == len(expected):
+        for i, (e, g) in enumerate(zip(expected, got)):
+            if e is not None and e != g:
+                return ('wrong', i)
+        return None
+    # commands given while acknowledgements are off are not judged: the expected replies must be found in order
+    if len(got) < len(expected) or len(got) > len(expected) + unacked:
+        return ('count', None)
+    it = iter(got)
+    for i, e in enumerate(expected):
+        for g in it:
+            if e is None or e == g:
+                break
+        else:
+            return ('wrong', i)
+    return None
 
 
 def rib_state(wd):
@@ -91,7 +238,7 @@ def parse_replies(raw: bytes):
 def run_sequence(args):
     seq, cuts, version = args
     viols = []
-    lines = [(CMD[c][1] if version == 6 else CMD[c][2]) for c in seq]
+    lines = [l for c in seq for l in (CMD[c][1] if version == 6 else CMD[c][2]).split('\n')]
     data = ('\n'.join(lines) + '\n').encode()
     seen = []
     with World(CFG, env={'api.version': version}) as wd:
@@ -123,37 +270,21 @@ def run_sequence(args):
         kind = 'lost' if len(got) < len(norm) else ('extra' if len(got) > len(norm) else 'altered')
         viols.append((f'command-stream:{kind}', f'commands executed {got} != lines written {norm} (chunks at {list(cuts)})'))
     # (2) exactly one terminal reply per command, in order
-    expected = []
-    for c in seq:
-        t = CMD[c][3]
-        expected.append(t)
-    terms = [l for l in complete if l in TERMINALS]
-    terms_n = list(terms)
-    if terms_n != expected:
-        if len(terms_n) != len(expected):
-            viols.append((f'ack-count:{len(expected)}->{len(terms_n)}', f'{len(expected)} commands {list(seq)} answered with terminal replies {terms_n} (all lines: {[l[:40] for l in complete]})'))
+    expected, who, unacked, ribs, nothing_accepted = model(seq, version)
+    terms_n = [l for l in complete if l in TERMINALS]
+    bad = match_replies(expected, unacked, terms_n)
+    if bad is not None:
+        if bad[0] == 'count':
+            viols.append((f'ack-count:{len(expected)}->{len(terms_n)}', f'{len(expected)} commands to be acknowledged in {list(seq)} answered with terminal replies {terms_n} (all lines: {[l[:40] for l in complete][:12]})'))
         else:
-            i = [k for k in range(len(expected)) if terms_n[k] != expected[k]][0]
-            viols.append((f'ack-wrong:{seq[i]}:{expected[i]}->{terms_n[i]}', f'commands {list(seq)}: replies {terms_n}, expected {expected}'))
+            i = bad[1]
+            viols.append((f'ack-wrong:{who[i]}:{expected[i]}->{terms_n[i] if i < len(terms_n) and len(terms_n) == len(expected) else "?"}', f'commands {list(seq)}: replies {terms_n}, expected {expected}'))
     # (3) RIB effects: exactly the model's
-    model = {n: set() for n in NEIGHBORS}
-    touched = set()
-    for c in seq:
-        eff = CMD[c][4]
-        if eff:
-            op, pfx, targets = eff
-            for n in targets:
-                touched.add((n, pfx))
-                if op == 'add':
-                    model[n].add(pfx)
-                else:
-                    model[n].discard(pfx)
     for n in NEIGHBORS:
         cached = set(after[n][0])
-        if cached != model[n]:
-            only_invalid = all(CMD[c][4] is None for c in seq)
-            sig = 'side-effect-of-refused-command' if only_invalid else 'rib-differs-from-model'
-            viols.append((f'{sig}:{n}', f'commands {list(seq)}: Adj-RIB-Out of {n} holds {sorted(cached)}, the commands that succeeded say {sorted(model[n])}'))
+        if cached != ribs[n]:
+            sig = 'side-effect-of-refused-command' if nothing_accepted else 'rib-differs-from-model'
+            viols.append((f'{sig}:{n}', f'commands {list(seq)}: Adj-RIB-Out of {n} holds {sorted(cached)}, the commands that succeeded say {sorted(ribs[n])}'))
     if all(CMD[c][4] is None and CMD[c][3] == 'error' for c in seq) and before != after:
         viols.append(('side-effect-of-refused-command:queues', f'only refused commands {list(seq)} but RIB state changed {before} -> {after}'))
     if exc:
@@ -246,26 +377,50 @@ def chunkings(n, maxcuts):
 
 def plan(tier):
     jobs = []
-    names = [c[0] for c in COMMANDS]
-    # sequences x chunkings, API v6
-    for k in (1, 2, 3):
+    names = [c[0] for c in COMMANDS if c[0] != 'many']
+    seen = set()
+
+    def add(seq, cuts, version):
+        key = (tuple(seq), tuple(cuts), version)
+        if key not in seen:
+            seen.add(key)
+            jobs.append(key)
+
+    # sequences, API v6: every sequence of <= 2 commands over the whole alphabet; every sequence of 3 over the core
+    # alphabet and over the block/acknowledgement alphabet; 4 over the block alphabet (thorough: 3 over everything, 4 over the core)
+    for k in (1, 2):
         for seq in itertools.product(names, repeat=k):
-            if k == 3 and tier == 'quick' and (hash(seq) if False else sum(names.index(x) * (7 ** i) for i, x in enumerate(seq))) % 9:
-                continue
-            jobs.append((seq, (), 6))
+            add(seq, (), 6)
+    for seq in itertools.product(CORE, repeat=3):
+        add(seq, (), 6)
+    for seq in itertools.product(BLOCK3, repeat=3):
+        add(seq, (), 6)
+    for seq in itertools.product(BLOCK4, repeat=4):
+        add(seq, (), 6)
+    if tier != 'quick':
+        for seq in itertools.product(names, repeat=3):
+            add(seq, (), 6)
+        for seq in itertools.product(CORE, repeat=4):
+            add(seq, (), 6)
+    # a long-running command (the listing of 120 routes on 4 neighbors is produced over several loop rounds) followed by
+    # commands answered at once: the replies must not overtake
+    for tail in itertools.product(('unknown', 'annA', 'version', 'badval', 'show'), repeat=2):
+        add(('many', 'show') + tail, (), 6)
     # chunkings: every single cut and (thorough) every pair of cuts for a set of two-command sequences
-    chunk_seqs = [('annA', 'wdrA'), ('badval', 'annA'), ('unknown', 'annB1'), ('annA', 'unknown')]
+    chunk_seqs = [('annA', 'wdrA'), ('badval', 'annA'), ('unknown', 'annB1'), ('annA', 'unknown'), ('gstart', 'bare', 'gend'), ('ackoff', 'annA', 'ackon'), ('attrs2', 'empty', 'unknown')]
     for seq in chunk_seqs:
         data_len = len('\n'.join(CMD[c][1] for c in seq)) + 1
-        for cuts in chunkings(data_len, 1 if tier == 'quick' else 2):
+        for cuts in chunkings(data_len, 1 if (tier == 'quick' or len(seq) > 2) else 2):
             if cuts:
-                jobs.append((seq, cuts, 6))
-        jobs.append((seq, tuple(range(1, data_len)), 6))  # one byte at a time
+                add(seq, cuts, 6)
+        add(seq, tuple(range(1, data_len)), 6)  # one byte at a time
     # API v4 syntax
     v4 = [c[0] for c in COMMANDS if c[2] is not None]
     for k in (1, 2):
         for seq in itertools.product(v4, repeat=k):
-            jobs.append((seq, (), 4))
+            add(seq, (), 4)
+    for seq in itertools.product(('annA', 'wdrA', 'badsyntax', 'annB1', 'clear', 'attrs2', 'attrsbad'), repeat=3):
+        add(seq, (), 4)
     return jobs
 
 
